@@ -615,7 +615,11 @@ class ExcelCompiler:
             if cell and getattr(cell, 'formula', None):
                 self.log.info(f"{addr} is not a leaf node")
 
-        # 5) remove unneeded cells
+        # 5) remove unneeded cells: what neither is an output nor was reached
+        #    from one; a dependant of an input that feeds no output would stay
+        #    behind with its formula while its other precedents are deleted
+        needed_cells = processed_cells.union(
+            addr.address for addr in output_addrs)
         cells_to_remove = tuple(addr for addr in self.cell_map
                                 if addr not in needed_cells)
         for addr in cells_to_remove:
